@@ -803,6 +803,64 @@ def rule_enc_norm(ctx, prog, chk):
     return n
 
 
+PCK = re.compile(r"^(ep\d*)_(pck|upk)$")
+
+
+def rule_pck_sib(ctx, prog, chk):
+    """PCK-SIB: point compression and decompression derive the sign bit from the same components of y under the same
+    conditions: the (component, only-if-the-previous-one-is-zero) sequence of the conversions that feed the comparison
+    with (p - 1) / 2 is the same in X_pck and X_upk.  Otherwise a point whose deciding component differs (y_1 = 0 in a
+    quadratic extension) decompresses to its negative"""
+    sigs = {}
+    for fn in prog.all:
+        m = PCK.match(fn.name.split("__")[-1])
+        if not m:
+            continue
+        g = ctx.xcfg(prog, fn)
+        F = Facts(prog, g, mark_thrown=True)
+        sig = set()
+        for nd in g.nodes:
+            if nd.kind != "el" or nd.proto:
+                continue
+            st = F.IN.get(nd)
+            if st is None or st is engines.UNIVERSE:
+                continue
+            for c in ir.calls_in(fn, nd.el.e):
+                if c[1] != "fp_prime_back" or len(c[2]) != 2:
+                    continue
+                V = key(fn, c[2][0])
+                a = ir.strip_casts(fn.resolve(c[2][1]))
+                idx = None
+                if isinstance(a, list) and a and a[0] == "x":
+                    ik = key(fn, a[2])
+                    idx = ik[1] if isinstance(ik, tuple) and ik[0] == "i" else "?"
+                guarded = any(at[0] == "cmp" and at[1] == ("c", "bn_is_zero", (V,)) and engines.entails(at[2], at[3], "!=", 0) for at in st)
+                sig.add((idx, guarded))
+        prefix = fn.name[:len(fn.name) - len(fn.name.split("__")[-1])]
+        sigs.setdefault((prefix, m.group(1)), {})[m.group(2)] = (fn, sig)
+    n = 0
+    for (prefix, fam), d in sorted(sigs.items()):
+        if "pck" not in d:
+            continue
+        if "upk" not in d:
+            # a variant of the compression alone (self-test): judged against the conforming / the library's decompression
+            alt = [v for (pf, fm), v in sorted(sigs.items()) if fm == fam and "upk" in v and (pf.startswith("ok_") or pf == "")]
+            if not alt:
+                continue
+            d = dict(d, upk=alt[0]["upk"])
+        (fp, sp), (fu, su) = d["pck"], d["upk"]
+        if not sp and not su:
+            continue
+        n += 1
+        fmt = lambda s: ", ".join("y%s%s" % ("" if i is None else "[%s]" % i, " if the previous is zero" if gd else "") for i, gd in sorted(s, key=repr)) or "none"
+        if sp == su:
+            chk.ok("PCK-SIB", fp, "sign", "compression and decompression take the sign from the same components (%s)" % fmt(sp), line=fp.line)
+        else:
+            chk.fail("PCK-SIB", fp, "sign", "%s takes the sign bit from (%s), %s from (%s): a point whose deciding component differs is decompressed to its negative" % (
+                fp.name, fmt(sp), fu.name, fmt(su)), line=fp.line)
+    return n
+
+
 POINT_DEC = re.compile(r"^(ep\d*|eb|ed)_read_bin$")
 _MUST = {}
 
@@ -885,7 +943,8 @@ def analyse(ctx, prog, chk):
         nnf += k
     nen = rule_enc_norm(ctx, prog, chk)
     ndd = rule_dec_def(ctx, prog, chk, info)
-    return {"decoders": len(decs), "point_decoders": npoint, "encoders": len(encs), "len_agree": nla, "range": nr, "nf": nnf, "enc_norm": nen, "dec_def": ndd}
+    nps = rule_pck_sib(ctx, prog, chk)
+    return {"decoders": len(decs), "point_decoders": npoint, "encoders": len(encs), "len_agree": nla, "range": nr, "nf": nnf, "enc_norm": nen, "dec_def": ndd, "pck_sib": nps}
 
 
 def selfcheck(ctx, prog, chk):
@@ -900,6 +959,7 @@ def run(ctx, chk):
     chk.floor("ENC-LEN", "*_write_bin/_write_str encoders (BASE)", c["encoders"], 22)
     chk.floor("LEN-AGREE", "size/read/write triples (BASE)", c["len_agree"], 15)
     chk.floor("RANGE-FP", "fp_read_bin, fb_read_bin, fb_read_str", c["range"], 3)
+    chk.floor("PCK-SIB", "compression / decompression pairs that convert y", c["pck_sib"], 2)
     chk.floor("DEC-DEF", "point decoders", c["dec_def"], 7)
     chk.floor("ENC-NORM", "point encoders that normalise", c["enc_norm"], 5)
     chk.floor("DEC-NF", "integer decoders held to the normal form", c["nf"], 3)
